@@ -101,3 +101,4 @@ package crl
 //@   props C15 C07 C13
 //@   requires checkerOK(c) && norwlocks() && unheld(&crlUpdateMutex) && c.crlUpdateTicker != nil
 //@   assigns *
+//@   loop 1 forever
